@@ -414,10 +414,11 @@ type c06Gen struct {
 }
 
 var c06Remotes = []string{"192.0.2.7:6881", "10.1.2.3:1", "[2001:db8::1]:6881", "[::1]:80", "[::ffff:192.0.2.9]:443", "[::ffff:c000:0209]:443",
-	"127.0.0.1:65535", "[fe80::1]:1234", "0.0.0.0:0", "[::]:0", "255.255.255.255:1"}
+	"127.0.0.1:65535", "[fe80::1]:1234", "0.0.0.0:0", "[::]:0", "255.255.255.255:1",
+	"[64:ff9b::c633:6404]:6881", "[2002:c633:6404::1]:1", "[::198.51.100.4]:80", "[64:ff9b:1::c633:6404]:80"}
 var c06BadRemotes = []string{"", "garbage", "192.0.2.7", "[::1]", "::1:80", "[fe80::1%eth0]:80", "host.example:80", "192.0.2.7:", ":80", "1.2.3.4:5:6",
 	"[1.2.3.4]:80", "010.1.2.3:80", "1.2.3:80", "@", "[2001:db8::1]:x", "192.0.2.7:80 "}
-var c06IPTexts = []string{"192.0.2.33", "2001:db8::2", "::ffff:10.0.0.1", "::ffff:a00:1", "0.0.0.0", "::", "::1", "1.2.3.4", "255.255.255.255",
+var c06IPTexts = []string{"64:ff9b::c633:6404", "2002:c633:6404::1", "::198.51.100.4", "192.0.2.33", "2001:db8::2", "::ffff:10.0.0.1", "::ffff:a00:1", "0.0.0.0", "::", "::1", "1.2.3.4", "255.255.255.255",
 	"fe80::1", "2001:DB8:0:0:0:0:0:FFFF", "0:0:0:0:0:ffff:102:304"}
 var c06BadIPTexts = []string{"", "garbage", "1.2.3", "1.2.3.4.5", "256.1.1.1", "01.2.3.4", "1.2.3.4 ", " 1.2.3.4", "fe80::1%eth0", "::g", "1.2.3.4:80", "[::1]",
 	"2001:db8::1::2", "12345::", "0x1.2.3.4", "1.2.3.-4", "١.2.3.4"}
